@@ -1,14 +1,10 @@
 (* Basic facts about Model/Ignore.v: unfolding lemmas, induction principle for the walk tree,
    denotation of the rule sets, and the leakage invariant (ignore_restores). *)
 From Coq Require Import List Bool Arith Lia.
-From Falco Require Import Base.Bytes Model.Ignore.
+From Falco Require Import Base.Bytes Model.Ignore Model.IgnoreSpec.
 Import ListNotations.
 
 (* ------------------------------------------------------------------ projections of a result *)
-Definition r_st (r : rres) : istate := fst (fst (fst r)).
-Definition r_qv (r : rres) : list diag := snd (fst (fst r)).
-Definition r_qp (r : rres) : list diag := snd (fst r).
-Definition r_out (r : rres) : list diag := snd r.
 
 Lemma r_st_mk a b c d : r_st (a, b, c, d) = a. Proof. reflexivity. Qed.
 Lemma r_qv_mk a b c d : r_qv (a, b, c, d) = b. Proof. reflexivity. Qed.
